@@ -159,6 +159,8 @@ struct Model {
     rr_cursor: usize,
     rr_bits: Vec<Tri>,
     rr_checked: u32,
+    /// a guard of a dead incarnation was dropped (its late notification may legitimately re-open the replacement)
+    zombie_finished: bool,
 }
 
 /// the accept loop's knowledge of a worker's availability, as far as the harness can tell
@@ -228,10 +230,16 @@ impl Model {
                     }
                     let ever_sat_after: Vec<bool> = self.workers.iter().map(|s| s.ever_saturated).collect();
                     self.dispatches.push(DispatchRec { worker: w, sat_before, ever_sat_after });
-                    if load > self.limit && !self.any_kill {
+                    if load > self.limit {
                         let msg = format!("worker {} has {} connections in progress (queued {} + live {}), limit {}", w, load, self.workers[w].queued.len(), self.workers[w].live.len(), self.limit);
-                        self.flag(Prop::C02, "C02/limit-exceeded", msg.clone());
-                        self.flag(Prop::C04, "C04/saturated-receives", msg);
+                        if !self.any_kill {
+                            self.flag(Prop::C02, "C02/limit-exceeded", msg.clone());
+                            self.flag(Prop::C04, "C04/saturated-receives", msg);
+                        } else if !self.zombie_finished && self.pending_ctl.is_empty() && self.workers.iter().all(|s| s.alive && s.in_rotation) {
+                            // every fault has been resolved (all workers alive and back in the
+                            // rotation): no forced send can be in play, the skip rule applies again
+                            self.flag(Prop::C04, "C04/saturated-receives", format!("{} although every faulted worker has been replaced and rejoined the rotation", msg));
+                        }
                     }
                 }
                 None => {
@@ -288,6 +296,9 @@ impl Model {
         }
         let k = k % n;
         let from_live = k < slot.live.len();
+        if !from_live {
+            self.zombie_finished = true;
+        }
         let c = if from_live { slot.live.remove(k) } else { slot.zombies.remove(k - slot.live.len()) };
         let id = c.id;
         // the release that takes a worker from its limit to limit-1 sends a notification
@@ -409,6 +420,7 @@ impl Engine {
             rr_cursor: 0,
             rr_bits: vec![Tri::Yes; c.workers],
             rr_checked: 0,
+            zombie_finished: false,
         };
         let n = c.listeners.len();
         Ok(Engine { stepped, wq, model: Rc::new(RefCell::new(model)), addrs, fds, backoff: vec![None; n], armed_fatal: vec![false; n], now_ms: 0, steps: 0, labels: vec![], aborted: None })
@@ -484,6 +496,13 @@ impl Engine {
             Err(p) => {
                 let msg = vcore::panic_message(&*p);
                 self.model.borrow_mut().flag(Prop::C08, if msg.contains("spin guard") { "C08/accept-spin" } else { "C08/accept-panic" }, format!("the accept loop panicked: {}", msg));
+                {
+                    let mut m = self.model.borrow_mut();
+                    let unserved = m.conns.iter().filter(|c| matches!(c.state, CState::Backlog | CState::Queued)).count();
+                    if m.workers.iter().any(|s| s.alive) && unserved > 0 {
+                        m.flag(Prop::C01, "C01/accept-loop-dead", format!("the accept loop died or spins ({}) while a worker is alive and {} accepted or waiting connection(s) can no longer be dispatched", msg, unserved));
+                    }
+                }
                 self.aborted = Some(msg);
                 return None;
             }
@@ -602,9 +621,7 @@ impl Engine {
             if had_err || self.labels.contains(&"pause") {
                 m.flag(Prop::C05, "C05/stranded", msg.clone());
             }
-            if !m.any_kill {
-                m.flag(Prop::C03, "C03/lost-wakeup", msg.clone());
-            }
+            m.flag(Prop::C03, "C03/lost-wakeup", msg.clone());
             m.flag(Prop::C01, "C01/never-served", msg);
             return;
         }
